@@ -56,6 +56,13 @@ const (
 
 // Observe drives the public API. Panics propagate (callers guard them).
 func Observe(seg segment.Segment) (o *Obs, err error) {
+	return ObserveWith(seg, nil)
+}
+
+// ObserveWith is Observe; storedSeg, when non-nil, supplies the segment object on which the
+// stored fields of document d are visited (used for the frozen reference reader, whose stored
+// visit is history dependent: a fresh copy per 128-document block avoids its known defect).
+func ObserveWith(seg segment.Segment, storedSeg func(d uint64) segment.Segment) (o *Obs, err error) {
 	o = &Obs{Count: seg.Count(), Dicts: map[string][]Term{}, Stats: map[string]model.Stats{}}
 	o.Fields = append([]string(nil), seg.Fields()...)
 	for _, f := range o.Fields {
@@ -76,7 +83,11 @@ func Observe(seg segment.Segment) (o *Obs, err error) {
 	}
 	for d := uint64(0); d < o.Count; d++ {
 		var kv []model.KV
-		err := seg.VisitStoredFields(d, func(field string, value []byte) bool {
+		vs := seg
+		if storedSeg != nil {
+			vs = storedSeg(d)
+		}
+		err := vs.VisitStoredFields(d, func(field string, value []byte) bool {
 			kv = append(kv, model.KV{F: field, V: string(value)})
 			return true
 		})
